@@ -19,6 +19,9 @@ pub struct Case {
     pub scene: Program,
     /// None: file produced by the crate's writer; Some: by the independent encoder
     pub layout: Option<Layout>,
+    /// option setter calls (setter 0..6, value) made before the final assignment; their effect must be overwritten
+    #[serde(default)]
+    pub noise: Vec<(u8, bool)>,
 }
 
 /// Restrict a generated scene to the domain in which the simple view is defined.
@@ -27,6 +30,20 @@ pub fn tame(p: &mut Program, s: &mut Src, foreign: bool) {
         if let Op::Cloud(c) = op {
             c.nan_ok = false;
             for r in &mut c.proto {
+                // a foreign producer may declare a constant invalid state (minimum = maximum)
+                if foreign && s.chance(1, 8) {
+                    match r.name.as_str() {
+                        "cartesianInvalidState" | "sphericalInvalidState" => {
+                            let k = s.below(3) as i64;
+                            r.ty = RType::Int { min: k, max: k }
+                        }
+                        "isColorInvalid" | "isIntensityInvalid" => {
+                            let k = s.below(2) as i64;
+                            r.ty = RType::Int { min: k, max: k }
+                        }
+                        _ => {}
+                    }
+                }
                 // a foreign producer may store invalid-state values outside the documented set
                 if foreign && s.chance(1, 6) {
                     match r.name.as_str() {
@@ -103,65 +120,34 @@ pub fn make_file(case_scene: &Program, layout: &Option<Layout>) -> Result<Vec<u8
     }
 }
 
-fn set_opts<T: std::io::Read + std::io::Seek>(it: &mut e57::PointCloudReaderSimple<T>, o: Opts) {
-    it.spherical_to_cartesian(o.s2c);
-    it.cartesian_to_spherical(o.c2s);
-    it.intensity_to_color(o.i2c);
-    it.normalize_intensity(o.ni);
-    it.normalize_color(o.nc);
-    it.apply_pose(o.pose);
+fn set_one<T: std::io::Read + std::io::Seek>(it: &mut e57::PointCloudReaderSimple<T>, which: u8, v: bool) {
+    match which % 6 {
+        0 => it.spherical_to_cartesian(v),
+        1 => it.cartesian_to_spherical(v),
+        2 => it.intensity_to_color(v),
+        3 => it.normalize_intensity(v),
+        4 => it.normalize_color(v),
+        _ => it.apply_pose(v),
+    }
 }
 
-impl Check for C05 {
-    type Case = Case;
-    const ID: &'static str = "C05";
-    fn rule() -> String {
-        "Files from the crate's writer (C01 generator) and from the independent encoder under random legal layouts (C03 generator), with poses \
-         (unit quaternions), limits (absent, integer/single/double pairs, scaled-integer and mixed kinds), invalid-state patterns incl. values \
-         outside the documented sets (foreign files only), all attribute subsets; each cloud is iterated with the simple iterator under ALL 64 \
-         option vectors (8 sampled vectors for clouds with > 400 points). Oracle: same number of points in the same order as the raw iterator; each \
-         point equals the reference model of the documented function of the raw values (validity variants exactly, scaled integers raw*scale+offset, \
-         row/column default -1, colour/intensity presence, conversions and pose within 1e-9 relative, normalisation per the C13 formula); Err only \
-         at the index of an out-of-set invalid-state value. Non-trivial: cloud with a data packet that completes no point, spherical-only cloud, \
-         non-identity pose, invalid-state value 1 or 2 present, or >= 3 data packets."
-            .into()
+/// Reach the option vector `o` through a call history: noise calls first, then every switch
+/// once in a rotated order. Only the last value given to a switch may matter.
+fn set_opts<T: std::io::Read + std::io::Seek>(it: &mut e57::PointCloudReaderSimple<T>, o: Opts, noise: &[(u8, bool)], rot: u8) {
+    for (w, v) in noise {
+        set_one(it, *w, *v);
     }
-    fn assumptions() -> Vec<String> {
-        vec![
-            "direction-only conversions, the coordinate frame of Cartesian->spherical under a pose and the switch governing grey colour when the two normalisation switches differ are not pinned down by the documentation: both readings are accepted".into(),
-            "coordinate values are not compared when an input is non-finite or above 1e100 in magnitude".into(),
-        ]
+    let vals = [o.s2c, o.c2s, o.i2c, o.ni, o.nc, o.pose];
+    for k in 0..6u8 {
+        let w = (k + rot) % 6;
+        set_one(it, w, vals[w as usize]);
     }
-    fn budget(t: Tier) -> usize {
-        t.pick(4000, 80_000)
-    }
-    fn gen(s: &mut Src, _t: Tier) -> Case {
-        let foreign = s.chance(1, 2);
-        let o = GenOpts { density: 1, max_ops: 2, max_values: 12_000, images: false, blobs: s.flag(), fat_chance: (1, 8), ..GenOpts::default() };
-        let mut scene = if foreign { scene_spec(s, &o) } else { prog::valid_program(s, &o) };
-        scene.end = prog::End::Finalize;
-        tame(&mut scene, s, foreign);
-        let layout = if foreign { Some(gen::layout(s, &build_scene(&scene))) } else { None };
-        Case { scene, layout }
-    }
-    fn run(case: &Case) -> Verdict {
-        let mut v = Verdict::new();
-        let bytes = match make_file(&case.scene, &case.layout) {
-            Ok(b) => b,
-            Err((true, e)) => {
-                v.infra(e);
-                return v;
-            }
-            Err((false, e)) => {
-                v.fail(e);
-                return v;
-            }
-        };
-        v.label(if case.layout.is_some() { "file_from_independent_encoder" } else { "file_from_writer" });
-        crate::c01::layout_labels(&bytes, &mut v);
-        let mut execs = 0u64;
-        let r = guard(|| -> Result<(), String> {
-            let mut rd = E57Reader::new(MemDev::with_data(bytes.clone())).map_err(|e| format!("open: {e}"))?;
+}
+
+/// Every cloud of the file under all (or sampled) option vectors: the simple iterator
+/// must agree with the reference model applied to the raw values.
+pub fn verify_simple(bytes: &[u8], noise: &[(u8, bool)], v: &mut Verdict, execs: &mut u64) -> Result<(), String> {
+    let mut rd = E57Reader::new(MemDev::with_data(bytes.to_vec())).map_err(|e| format!("open: {e}"))?;
             for (ci, pc) in rd.pointclouds().iter().enumerate() {
                 let raw = read_raw(&mut rd, pc, pc.records as usize + 1)?;
                 if raw.error.is_some() || raw.points.len() as u64 != pc.records {
@@ -182,8 +168,8 @@ impl Check for C05 {
                 for bits in all {
                     let o = Opts::from_bits(bits);
                     let mut it = rd.pointcloud_simple(pc).map_err(|e| format!("cloud {ci}: pointcloud_simple failed: {e}"))?;
-                    set_opts(&mut it, o);
-                    execs += 1;
+                    set_opts(&mut it, o, &noise, bits % 6);
+                    *execs += 1;
                     let mut k = 0usize;
                     loop {
                         let item = it.next();
@@ -216,7 +202,59 @@ impl Check for C05 {
                 }
             }
             Ok(())
-        });
+}
+
+impl Check for C05 {
+    type Case = Case;
+    const ID: &'static str = "C05";
+    fn rule() -> String {
+        "Files from the crate's writer (C01 generator) and from the independent encoder under random legal layouts (C03 generator), with poses \
+         (unit quaternions), limits (absent, integer/single/double pairs, scaled-integer and mixed kinds), invalid-state patterns incl. values \
+         outside the documented sets (foreign files only), constant invalid-state records (minimum = maximum), all attribute subsets; each cloud is iterated with the simple iterator under ALL 64 \
+         option vectors (8 sampled vectors for clouds with > 400 points), each vector reached through a generated history of setter calls \
+         (noise calls first, then every switch once in a rotated order). Oracle: same number of points in the same order as the raw iterator; each \
+         point equals the reference model of the documented function of the raw values (validity variants exactly, scaled integers raw*scale+offset, \
+         row/column default -1, colour/intensity presence, conversions and pose within 1e-9 relative, normalisation per the C13 formula); Err only \
+         at the index of an out-of-set invalid-state value. Non-trivial: cloud with a data packet that completes no point, spherical-only cloud, \
+         non-identity pose, invalid-state value 1 or 2 present, or >= 3 data packets."
+            .into()
+    }
+    fn assumptions() -> Vec<String> {
+        vec![
+            "direction-only conversions, the coordinate frame of Cartesian->spherical under a pose and the switch governing grey colour when the two normalisation switches differ are not pinned down by the documentation: both readings are accepted".into(),
+            "coordinate values are not compared when an input is non-finite or above 1e100 in magnitude".into(),
+        ]
+    }
+    fn budget(t: Tier) -> usize {
+        t.pick(4000, 80_000)
+    }
+    fn gen(s: &mut Src, _t: Tier) -> Case {
+        let foreign = s.chance(1, 2);
+        let o = GenOpts { density: 1, max_ops: 2, max_values: 12_000, images: false, blobs: s.flag(), fat_chance: (1, 8), ..GenOpts::default() };
+        let mut scene = if foreign { scene_spec(s, &o) } else { prog::valid_program(s, &o) };
+        scene.end = prog::End::Finalize;
+        tame(&mut scene, s, foreign);
+        let layout = if foreign { Some(gen::layout(s, &build_scene(&scene))) } else { None };
+        let noise = (0..s.below(7)).map(|_| (s.below(6) as u8, s.flag())).collect();
+        Case { scene, layout, noise }
+    }
+    fn run(case: &Case) -> Verdict {
+        let mut v = Verdict::new();
+        let bytes = match make_file(&case.scene, &case.layout) {
+            Ok(b) => b,
+            Err((true, e)) => {
+                v.infra(e);
+                return v;
+            }
+            Err((false, e)) => {
+                v.fail(e);
+                return v;
+            }
+        };
+        v.label(if case.layout.is_some() { "file_from_independent_encoder" } else { "file_from_writer" });
+        crate::c01::layout_labels(&bytes, &mut v);
+        let mut execs = 0u64;
+        let r = guard(|| verify_simple(&bytes, &case.noise, &mut v, &mut execs));
         v.execs = execs.max(1);
         match r {
             Err(p) => v.fail(format!("reader panicked: {p}")),
